@@ -335,7 +335,40 @@ def sc_geom(layout, opt):
     raise KeyError(fn)
 
 
+def sc_helpers(layout, opt):
+    """public methods of the field classes that take arrays and are also used internally"""
+    fn = opt["fn"]
+    model = gs.Exponential(dim=2, var=1.2, len_scale=2.0, nugget=opt.get("nugget", 0.0))
+    cp, cv = lay(POS2, layout), lay(VAL, layout)
+    if fn == "get_scaling":
+        csrf = gs.CondSRF(gs.krige.Ordinary(model, cp, cv), seed=3, mode_no=8)
+        kv = lay([0.0, 0.05, 0.25, 0.9, 1.3, 1.6], layout)
+        return {"krige_var": kv, "cond_pos": cp, "cond_val": cv}, (lambda: csrf.get_scaling(kv, (6,)))
+    if fn == "generator_call":
+        gen = gs.field.generator.RandMeth(model, mode_no=8, seed=3)
+        pos = lay(POS2, layout)
+        return {"pos": pos}, (lambda: gen(pos))
+    if fn == "generator_nugget":
+        gen = gs.field.generator.RandMeth(model, mode_no=8, seed=3)
+        return {}, (lambda: gen.get_nugget((6,)))
+    if fn == "post_field":
+        srf = gs.SRF(model, seed=3, mode_no=8, mean=0.5, trend=lambda *p: 0.1 * p[0])
+        pos = lay(POS2, layout)
+        srf.set_pos(pos)
+        fld = lay([0.1, 0.2, 0.3, 0.4, 0.5, 0.6], layout)
+        return {"pos": pos, "field": fld}, (lambda: srf.post_field(fld, name="x", process=True, save=True))
+    if fn == "krige_set_condition":
+        kr = gs.krige.Ordinary(model, cp, cv)
+        cp2, cv2, ce = lay(np.array(POS2) + 0.3, layout), lay(np.array(VAL) * 2, layout), lay([0.01, 0.02, 0.03, 0.04, 0.05, 0.06], layout)
+        return {"cond_pos": cp2, "cond_val": cv2, "cond_err": ce}, (lambda: (kr.set_condition(cp2, cv2, cond_err=ce), kr(lay(POS2, "c")))[1])
+    if fn == "krige_get_mean":
+        kr = gs.krige.Ordinary(model, cp, cv)
+        return {"cond_pos": cp, "cond_val": cv}, (lambda: kr.get_mean())
+    raise KeyError(fn)
+
+
 SCEN = {
+    "public_helpers": sc_helpers,
     "vario_estimate": sc_vario,
     "vario_estimate_structured": sc_vario_struct,
     "vario_estimate_axis": sc_vario_axis,
@@ -381,6 +414,7 @@ def arg_cases(tier):
     add("mean_norm_trend_tools", fn=["apply", "remove"], mesh=["unstructured", "structured"], check=[True, False], stacked=[False, True], **mnt)
     add("array_transform", fn=["discrete", "discrete_expl", "boxcox", "zinnharvey", "force_moments", "lognormal", "uniform", "arcsin", "uquad"])
     add("model_functions", fn=["variogram", "covariance", "correlation", "cor", "vario_nugget", "cov_nugget", "cov_spatial", "vario_spatial", "cor_spatial", "isometrize", "anisometrize", "spectrum", "spectral_density", "spectral_rad_pdf", "cov_yadrenko", "vario_yadrenko", "cor_yadrenko"])
+    add("public_helpers", fn=["get_scaling", "generator_call", "generator_nugget", "post_field", "krige_set_condition", "krige_get_mean"], nugget=[0.0, 0.3])
     add("geometry", fn=["latlon2pos", "pos2latlon", "generate_grid", "generate_st_grid", "rotated_main_axes"])
     out = []
     for c in cases:
@@ -407,7 +441,7 @@ def arg_cases(tier):
 # histories on field objects
 def make_obj(cfg):
     mean, trend, norm = _mnt(cfg)
-    model = gs.Gaussian(dim=2, var=0.8, len_scale=1.5)
+    model = gs.Gaussian(dim=2, var=0.8, len_scale=1.5, nugget=cfg.get("nugget", 0.0))
     kind = cfg["obj"]
     if kind == "Field":
         return gs.field.Field(model, mean=mean if mean is not None else 0.0, normalizer=norm, trend=trend)
@@ -447,6 +481,7 @@ def case_store_hist(case):
     obj = make_obj(cfg)
     returned = []  # (label, array, snapshot)
     stored_snap = {}
+    krige_snap = {}
     kind = cfg["obj"]
     last_fail_extra = {}
     for i, op in enumerate(hist):
@@ -462,7 +497,8 @@ def case_store_hist(case):
                 elif kind == "Krige":
                     out = obj(HPOS, store=[op["store"], False] if op["store"] is not False else False, post_process=op["post"])[0]
                 else:
-                    out = obj(HPOS, seed=7, store=[op["store"], False, False] if op["store"] is not False else False, post_process=op["post"])
+                    # (raw field and raw kriging field under their default names: the reuse path of later calls)
+                    out = obj(HPOS, seed=7, store=[op["store"], True, True] if op["store"] is not False else False, post_process=op["post"])
                 target = op["store"] if op["store"] is not False else None
             elif op["k"] == "transform":
                 if op["field"] not in obj.field_names:
@@ -496,8 +532,19 @@ def case_store_hist(case):
                     r.true("field stored earlier under another name is unchanged", snap(obj[name]) == sn, info=f"stored field '{name}' changed after {op}", changed=name, **extra)
                 else:
                     r.fail("field stored earlier disappeared", name, "still stored", changed=name, **extra)
+            # fields kept by the kriging instance behind a conditioned field (kriging variance) are results too
+            for name, sn in krige_snap.items():
+                if name in obj.krige.field_names and not (op["k"] == "call"):
+                    r.true("field stored earlier in the kriging instance is unchanged", snap(obj.krige[name]) == sn, info=f"krige field '{name}' changed after {op}", changed="krige:" + name, **extra)
         if out is not None:
             returned.append((i, out, snap(out)))
+        if kind == "CondSRF":
+            # every array stored in the kriging instance is also an 'array returned earlier': keep the object
+            for name in obj.krige.field_names:
+                arr = obj.krige[name]
+                if not any(a is arr for _, a, _ in returned):
+                    returned.append((f"{i}:krige.{name}", arr, snap(arr)))
+            krige_snap = {n: snap(obj.krige[n]) for n in obj.krige.field_names}
         stored_snap = {n: snap(obj[n]) for n in obj.field_names}
     key = json.dumps({"names": sorted(obj.field_names), "n": len(hist), "h": [json.dumps(o, sort_keys=True) for o in hist]})
     return r.done(outcome=key)
@@ -510,6 +557,8 @@ def hist_configs(tier):
         cfgs.append({"obj": obj, "mean": "const", "trend": "call", "norm": "none"})
         if tier != "quick" or obj in ("SRF",):
             cfgs.append({"obj": obj, "mean": "call", "trend": "const", "norm": "yj"})
+        if obj in ("Krige", "CondSRF"):
+            cfgs.append({"obj": obj, "mean": "const", "trend": "none", "norm": "none", "nugget": 0.3})
     return cfgs
 
 
